@@ -269,5 +269,6 @@ func (c *tcpConnectionActor) handshake() (err error) {
 		}
 	}
 
-	return nil
+	// 握手阶段设置的读写截止时间必须清除：否则连接建立 10 秒后读取必然超时，健康的连接会被自行断开
+	return c.conn.SetDeadline(time.Time{})
 }
